@@ -210,6 +210,9 @@ def _drive(repo, script, end=6, timed=True, connect_twice=False, dangling_input=
         it.run(run, [], {"start_time": 0 if timed else None, "end_time": end if timed else None}, self_obj=me)
     except Raised as r:
         return it, r.name
+    except AnalysisError as exc:
+        exc.interp = it  # (what was observed up to the point where the run left the vocabulary / the step budget)
+        raise
     return it, None
 
 
